@@ -128,8 +128,8 @@ func genUg(g *vlib.G) {
 // `tail` pairs and runs the 'radix^tail' graphs of the block. per == 1: one
 // container/ID-map combination per graph chosen by a fixed rotation, in the
 // "lite" mode (one absent target ID, one A* heuristic per query, no ...Func
-// variants, no sink-self query). per == 6: every container kind once, the ID
-// map rotating with the graph index, full checks.
+// variants, no sink-self query). per == 6: three of the six container kinds
+// (alternating with the graph index), the ID map rotating, full checks.
 func blocks(g *vlib.G, n int, directed bool, ps [][2]int, alpha []float64, tail, per int) {
 	radix := len(alpha) + 1
 	head := len(ps) - tail
@@ -139,7 +139,7 @@ func blocks(g *vlib.G, n int, directed bool, ps [][2]int, alpha []float64, tail,
 	}
 	odometer(head, radix, func(bidx int, hd []int) bool {
 		h := append([]int(nil), hd...)
-		g.Case(fmt.Sprintf("n=%d %s w=%s+%d", n, kind, digitString(h, alpha), tail), func(t *vlib.T) {
+		g.Case(fmt.Sprintf("n=%d %s alphabet=%d combos=%d w=%s+%d", n, kind, len(alpha), per, digitString(h, alpha), tail), func(t *vlib.T) {
 			digits := make([]int, len(ps))
 			copy(digits, h)
 			feat := map[string]bool{}
@@ -155,7 +155,10 @@ func blocks(g *vlib.G, n int, directed bool, ps [][2]int, alpha []float64, tail,
 					c.run()
 					t.Count("graph_container_idmap_combinations", 1)
 				} else {
-					runCombos(t, r, weightedKinds, gi, false)
+					// three of the six container kinds per graph, alternating
+					// with the graph index, the ID map rotating
+					half := []int{weightedKinds[gi%2], weightedKinds[2+gi%2], weightedKinds[4+gi%2]}
+					runCombos(t, r, half, gi, false)
 				}
 				t.Count("graphs", 1)
 				feat[features(r)] = true
@@ -181,8 +184,8 @@ func pow(b, e int) int {
 func genDg4(g *vlib.G) {
 	ps := pairs(4, true)
 	if g.Thorough() {
-		blocks(g, 4, true, ps, alphaB, 4, 6)
 		blocks(g, 4, true, ps, alphaBFull, 4, 1)
+		blocks(g, 4, true, ps, alphaB, 4, 6)
 		return
 	}
 	blocks(g, 4, true, ps, alphaB, 4, 1)
